@@ -111,7 +111,7 @@ def mutate_src(rng, src):
 def run(rep, br, proofs, rng, tier):
     cases = []
     flags_all = ["noopt", "opt", "lim1", "lim3"]
-    modes = ["batch", "eval", "reuse", "evalfail"]
+    modes = ["batch", "eval", "reuse", "evalfail", "evalfail2"]
     mods = [hexs(m.encode()) for m in MODS]
     # boundary enumeration x configurations
     for name, src in boundary_scripts():
